@@ -76,6 +76,8 @@ def classify(spec):
                 feats.add('bus:' + c['bus']['kind'])
             if c['deposit'] is not None:
                 feats.add('deposit')
+            if c.get('bonds') is not None:
+                feats.add('bonds')
             if c['money'] is not None:
                 feats.add('money')
             for h in c['hh']:
